@@ -106,6 +106,7 @@ class Repo:
                     except SyntaxError as e:
                         raise AnalysisError("cannot parse %s: %s" % (rel, e))
         from . import inline
+        self.tuple_splits = split_independent_tuple_assignments(self)
         self.aliases_expanded = inline.expand_module_aliases(self)
         self.inlined = inline.apply(self)
 
@@ -321,3 +322,121 @@ def append_loop_as_listcomp(fn, name):
     lc._parent = loop
     lc._from_loop = loop
     return lc
+
+
+def bind_call(call, params, skip_self=True):
+    """{parameter name: argument node} for ``call`` against the parameter list ``params`` (names, or a FunctionDef): positional and keyword
+    arguments are treated alike, so `f(a, b)` and `f(x=a, y=b)` and `f(a, y=b)` bind the same way.  Starred arguments end the positional part.
+    Unknown keywords are kept under their own name."""
+    if isinstance(params, (ast.FunctionDef, ast.AsyncFunctionDef)):
+        names = [a.arg for a in params.args.posonlyargs + params.args.args]
+        if skip_self and names and names[0] in ("self", "cls"):
+            names = names[1:]
+        names += [a.arg for a in params.args.kwonlyargs]
+    else:
+        names = list(params)
+    out = {}
+    for i, a in enumerate(call.args):
+        if isinstance(a, ast.Starred) or i >= len(names):
+            break
+        out[names[i]] = a
+    for k in call.keywords:
+        if k.arg is not None:
+            out[k.arg] = k.value
+    return out
+
+
+def positional(call, params, n=None, skip_self=True):
+    """the first n arguments of ``call`` in parameter order (None where not given), whether passed by position or by keyword"""
+    b = bind_call(call, params, skip_self)
+    names = [a.arg for a in params.args.posonlyargs + params.args.args] if isinstance(params, (ast.FunctionDef, ast.AsyncFunctionDef)) else list(params)
+    if isinstance(params, (ast.FunctionDef, ast.AsyncFunctionDef)) and skip_self and names and names[0] in ("self", "cls"):
+        names = names[1:]
+    names = names[:n] if n is not None else names
+    return [b.get(nm) for nm in names]
+
+
+def split_independent_tuple_assignments(repo):
+    """`a, b = x, y` where neither x nor y reads a or b (and a, b are plain names) is the two statements `a = x; b = y` in either order: split it, so that
+    rules written for single assignments see through the one-line form.  Swaps and dependent forms (`a, b = b, a + b`) are left alone."""
+    n = 0
+    for rel, m in repo.modules.items():
+        changed = False
+        for node in ast.walk(m.tree):
+            for field in ("body", "orelse", "finalbody"):
+                blk = getattr(node, field, None)
+                if not (isinstance(blk, list) and blk and isinstance(blk[0], ast.stmt)):
+                    continue
+                out = []
+                for st in blk:
+                    if isinstance(st, ast.Assign) and len(st.targets) == 1 and isinstance(st.targets[0], ast.Tuple) and isinstance(st.value, ast.Tuple) and \
+                            len(st.targets[0].elts) == len(st.value.elts) and all(isinstance(t, ast.Name) for t in st.targets[0].elts) and \
+                            not any(isinstance(v, ast.Starred) for v in st.value.elts):
+                        tnames = {t.id for t in st.targets[0].elts}
+                        # sequential form a = va; b = vb equals the tuple form iff no later value reads an earlier target (earlier values may read anything:
+                        # nothing has been rebound yet when they are evaluated); evaluation order of the values is the same in both forms
+                        safe = True
+                        seen_t = set()
+                        for t, v in zip(st.targets[0].elts, st.value.elts):
+                            if {x.id for x in ast.walk(v) if isinstance(x, ast.Name)} & seen_t or any(isinstance(x, (ast.NamedExpr, ast.Await, ast.Yield)) for x in ast.walk(v)):
+                                safe = False
+                            seen_t.add(t.id)
+                        if safe and len(tnames) == len(st.targets[0].elts):
+                            for t, v in zip(st.targets[0].elts, st.value.elts):
+                                new = ast.Assign(targets=[t], value=v, lineno=st.lineno)
+                                ast.copy_location(new, st)
+                                out.append(new)
+                            changed = True
+                            n += 1
+                            continue
+                    out.append(st)
+                setattr(node, field, out)
+        if changed:
+            _annotate(m.tree, None)
+    return n
+
+
+def semantic_text(repo, node):
+    """source text of an expression after spelling-level normalisation: arguments of calls to a function/class defined (uniquely named) in the package are
+    written `param=value` in parameter order whether they were passed by position or by keyword; `dict()`/`dict(k=v)`, `list()`, `tuple()` are written as
+    literals; `d.get(k, None)` as `d.get(k)`.  Two expressions with the same semantic_text denote the same computation."""
+    defs = getattr(repo, "_defs_by_name", None)
+    if defs is None:
+        defs = {}
+        for rel, m in repo.modules.items():
+            for q, n in m.index.items():
+                if isinstance(n, (ast.FunctionDef, ast.ClassDef)) and "." not in q:
+                    defs.setdefault(q, []).append(n)
+        repo._defs_by_name = defs
+
+    class T(ast.NodeTransformer):
+        def visit_Call(self, c):
+            self.generic_visit(c)
+            d = dotted(c.func)
+            last = d.split(".")[-1] if d else None
+            if last == "dict" and d == "dict" and not c.args and all(k.arg for k in c.keywords):
+                return ast.Dict(keys=[ast.Constant(value=k.arg) for k in c.keywords], values=[k.value for k in c.keywords])
+            if d == "list" and not c.args and not c.keywords:
+                return ast.List(elts=[], ctx=ast.Load())
+            if d == "tuple" and not c.args and not c.keywords:
+                return ast.Tuple(elts=[], ctx=ast.Load())
+            if isinstance(c.func, ast.Attribute) and c.func.attr == "get" and len(c.args) == 2 and isinstance(c.args[1], ast.Constant) and c.args[1].value is None and not c.keywords:
+                return ast.Call(func=c.func, args=[c.args[0]], keywords=[])
+            if last in defs and len(defs[last]) == 1 and not any(isinstance(a, ast.Starred) for a in c.args) and all(k.arg for k in c.keywords):
+                tgt = defs[last][0]
+                fn = tgt
+                if isinstance(tgt, ast.ClassDef):
+                    fn = next((x for x in tgt.body if isinstance(x, ast.FunctionDef) and x.name == "__init__"), None)
+                if fn is not None and not fn.args.vararg:
+                    names = [a.arg for a in fn.args.posonlyargs + fn.args.args]
+                    if names and names[0] in ("self", "cls") and isinstance(tgt, ast.ClassDef):
+                        names = names[1:]
+                    if len(c.args) <= len(names):
+                        b = bind_call(c, names)
+                        order = {nm: i for i, nm in enumerate(names + [a.arg for a in fn.args.kwonlyargs])}
+                        kws = sorted(b.items(), key=lambda kv: order.get(kv[0], 10 ** 6))
+                        return ast.Call(func=c.func, args=[], keywords=[ast.keyword(arg=k, value=v) for k, v in kws])
+            return c
+    new = T().visit(clone(node))
+    ast.fix_missing_locations(new)
+    return src(new)
